@@ -172,4 +172,8 @@ theorem bad_argument_outcome (kind : String)
   simp only [List.mem_cons, List.not_mem_nil, or_false] at h
   rcases h with rfl | rfl | rfl | rfl | rfl | rfl | rfl | rfl | rfl <;> decide
 
+/-- the hand-written model of the resolver functions was written from, and validated against, code with exactly this
+    control structure (guards, switches, loops, returns, call sequence): regenerated fingerprint =
+    committed fingerprint of the unchanged tree -/
+theorem model_written_from_this_code : Generated.facts.resolverSkeleton = Skeleton.resolver := Instances.skeleton_resolver
 end Frugal.C13
